@@ -379,7 +379,18 @@ def main():
     sys.setrecursionlimit(10000)
     names = module_names(args.repo)
     import profile_types
-    profile = profile_types.collect(names, repo=args.repo)
+    sys.path.insert(0, os.path.dirname(HERE))
+    import common
+    os.makedirs(common.WORK, exist_ok=True)
+    pcache = os.path.join(common.WORK, 'profile-%s.json' % common.tree_hash()[:16])
+    if os.path.exists(pcache):
+        profile = json.load(open(pcache))
+    else:
+        profile = profile_types.collect(names, repo=args.repo)
+        for old in os.listdir(common.WORK):
+            if old.startswith('profile-'):
+                os.remove(os.path.join(common.WORK, old))
+        json.dump(profile, open(pcache, 'w'))
     ctx = Context(profile)
     for n in names:
         ctx.add_module(n)
